@@ -94,6 +94,7 @@ T = {
  "R4C-m3": ("C17", "macros generate/world.rs EcsEventIterator compares `which` with ARCHETYPE_ID instead of the position", "events + explicit non-positional archetype ids"),
  "R4C-m4": ("C19", "storage.rs `seq!(N in 17..32` (exclusive): no Storage32", "32_components + an archetype with exactly 32 components: does not compile"),
  "R4C-m5": ("C17", "storage.rs clear_events returns early if `created` is empty", "events: clear, then destroys without creates in that archetype, then clear again"),
+ "OWN-C18-unsafe": ("C18", "macros generate/query.rs ecs_iter_destroy! ContinueDestroy arm reads the handle with `unsafe { *slices.entity.get_unchecked(idx) }` (written here, after two sub-agents reported that no compile-verdict demonstration exists: forbid(unsafe_code) does not see proc-macro output; demo.sh greps rustc's expansion)", "any use of ecs_iter_destroy!: the expansion contains the unsafe keyword although user crates that forbid unsafe code still compile"),
 }
 
 
